@@ -2,6 +2,7 @@ pub mod c01;
 pub mod c01_net;
 pub mod c02;
 pub mod c02_net;
+pub mod c03;
 pub mod c04;
 pub mod c05;
 pub mod c05_ws;
@@ -56,6 +57,20 @@ pub fn all() -> Vec<PropDef> {
             run: c02::run,
             replay: c02::replay,
             child: Some(c02::child),
+        },
+        PropDef {
+            id: "C03",
+            level: "exploration",
+            rule: c03::RULE,
+            assumptions: &[
+                "handlers that never return are outside the property and are not generated",
+                "the notify flag is generated as 0 or 1 only",
+                "a dispatched request's expected response comes from the same handler run in-process on a twin router (C07 checks the in-process paths against each other); the envelope rules, exactly-once, ordering, completeness and cross-transport equality are checked independently of it",
+                "one WebSocket connection carries both inline and off-reader (_blocking) routes; only the inline subsequence is order-checked there",
+            ],
+            run: c03::run,
+            replay: c03::replay,
+            child: None,
         },
         PropDef {
             id: "C04",
